@@ -178,6 +178,8 @@ pub mod verif_driver {
         BulkQuery { t: usize, ids: Vec<u64>, emb: bool, ns: String },
         Search { t: usize, q: Vec<f32>, k: u32, ns: String, flt: Flt, legacy: Vec<(String, String)>, emb: bool, ef: u32 },
         BulkSearch { t: usize, qs: Vec<(Vec<f32>, u32)>, ns: String, flt: Flt },
+        /// BulkSearch stream whose items carry their own filters
+        BulkSearchMixed { t: usize, items: Vec<(Vec<f32>, u32, Flt)> },
         UpdateMetadata { t: usize, id: u64, m: Vec<(String, String)>, merge: bool, ns: String },
         Delete { t: usize, id: u64, ns: String },
         BatchDeleteIds { t: usize, ids: Vec<u64>, ns: String },
@@ -192,7 +194,7 @@ pub mod verif_driver {
         pub fn tenant(&self) -> Option<usize> {
             match self {
                 Rpc::Insert { t, .. } | Rpc::BulkInsert { t, .. } | Rpc::BulkLoad { t, .. } | Rpc::Query { t, .. } | Rpc::BulkQuery { t, .. }
-                | Rpc::Search { t, .. } | Rpc::BulkSearch { t, .. } | Rpc::UpdateMetadata { t, .. } | Rpc::Delete { t, .. }
+                | Rpc::Search { t, .. } | Rpc::BulkSearch { t, .. } | Rpc::BulkSearchMixed { t, .. } | Rpc::UpdateMetadata { t, .. } | Rpc::Delete { t, .. }
                 | Rpc::BatchDeleteIds { t, .. } | Rpc::BatchDeleteFilter { t, .. } | Rpc::Flush { t } => Some(*t),
                 _ => None,
             }
@@ -290,6 +292,30 @@ pub mod verif_driver {
             Rpc::BulkSearch { t, qs, ns, flt } => {
                 #[allow(deprecated)]
                 let reqs: Vec<SearchRequest> = qs.iter().map(|(q, k)| SearchRequest { query_embedding: q.clone(), k: *k, min_score: 0.0, namespace: ns.clone(), include_embeddings: false, ef_search: 0, filter: flt_to_proto(flt), metadata_filters: Default::default() }).collect();
+                match svc.bulk_search(with_tenant(srv, *t, streaming(reqs))).await {
+                    Ok(r) => {
+                        use tokio_stream::StreamExt;
+                        let mut st = r.into_inner();
+                        let mut out = Vec::new();
+                        loop {
+                            match tokio::time::timeout(Duration::from_secs(20), st.next()).await {
+                                Ok(Some(Ok(x))) => out.push(search_json(&x)),
+                                Ok(Some(Err(s))) => out.push(status_json(&s)),
+                                Ok(None) => break,
+                                Err(_) => {
+                                    out.push(json!({"status": "HANG"}));
+                                    break;
+                                }
+                            }
+                        }
+                        json!({"stream": out})
+                    }
+                    Err(s) => status_json(&s),
+                }
+            }
+            Rpc::BulkSearchMixed { t, items } => {
+                #[allow(deprecated)]
+                let reqs: Vec<SearchRequest> = items.iter().map(|(q, k, f)| SearchRequest { query_embedding: q.clone(), k: *k, min_score: 0.0, namespace: String::new(), include_embeddings: false, ef_search: 0, filter: flt_to_proto(f), metadata_filters: Default::default() }).collect();
                 match svc.bulk_search(with_tenant(srv, *t, streaming(reqs))).await {
                     Ok(r) => {
                         use tokio_stream::StreamExt;
